@@ -51,6 +51,59 @@ Proof.
   case E: (srun Ops h M0) => [[M' o']| | |] //=; rewrite sstep_query //.
   by case: (squery Ops M' q) => //= a [<- _]; apply: (IH _ _ Hh E).
 Qed.
+
+(** *** several objects, calls interleaved ([mrun]) *)
+Lemma mrun_snoc (h : list (nat * sop)) (o : nat * sop) (Ms0 : list (mat T)) :
+  mrun Ops (h ++ [:: o]) Ms0 =
+  rbind (mrun Ops h Ms0) (fun st => rbind (mstep Ops st.1 o) (fun st' => Ok (st'.1, (st.2 ++ [:: st'.2])%list))).
+Proof. by rewrite /mrun List.fold_left_app. Qed.
+
+Lemma mset_same (k : nat) (Ms : list (mat T)) (M : mat T) : List.nth_error Ms k = Some M -> mset k Ms M = Ms.
+Proof.
+  elim: Ms k => [|M' r IH] [|k] //=; first by case=> ->.
+  by move=> /IH ->.
+Qed.
+Lemma mset_other (k k' : nat) (Ms : list (mat T)) (M' : mat T) :
+  k <> k' -> List.nth_error (mset k' Ms M') k = List.nth_error Ms k.
+Proof.
+  elim: Ms k k' => [|M r IH] [|k] [|k'] //= H.
+  by apply: IH => E; apply: H; rewrite E.
+Qed.
+Lemma mset_at (k : nat) (Ms : list (mat T)) (M M' : mat T) :
+  List.nth_error Ms k = Some M -> List.nth_error (mset k Ms M') k = Some M'.
+Proof. by elim: Ms k => [|M1 r IH] [|k] //=; apply: IH. Qed.
+
+(** a call on object k is the one-object step [sstep] on the entries of object k *)
+Theorem hist_step_is_sstep (Ms : list (mat T)) (k : nat) (o : sop) (M : mat T) :
+  List.nth_error Ms k = Some M ->
+  mstep Ops Ms (k, o) = rbind (sstep Ops M o) (fun st => Ok (mset k Ms st.1, st.2)).
+Proof. by rewrite /mstep /= => ->. Qed.
+
+(** the answer to a query put to object k after any interleaved history on all objects is the answer [squery M q]
+    for the current entries M of object k, and no object changes *)
+Theorem hist_answer_after_history (h : list (nat * sop)) (k : nat) (q : sop) (Ms0 Ms : list (mat T)) (M : mat T)
+    (outs : list sout) :
+  mrun Ops h Ms0 = Ok (Ms, outs) -> List.nth_error Ms k = Some M -> is_query q ->
+  mrun Ops (h ++ [:: (k, q)]) Ms0 = rbind (squery Ops M q) (fun a => Ok (Ms, (outs ++ [:: a])%list)).
+Proof.
+  move=> Hh Hk Hq; rewrite mrun_snoc Hh /= (hist_step_is_sstep _ Hk) sstep_query //.
+  by case: (squery Ops M q) => //= a; rewrite mset_same.
+Qed.
+
+(** a call on object k' leaves the entries of every other object k as they are, and sets those of k' as [sstep] says *)
+Theorem hist_other_objects_untouched (Ms Ms' : list (mat T)) (k k' : nat) (o : sop) (a : sout) :
+  mstep Ops Ms (k', o) = Ok (Ms', a) -> k <> k' -> List.nth_error Ms' k = List.nth_error Ms k.
+Proof.
+  rewrite /mstep /=; case: (List.nth_error Ms k') => // M.
+  by case: (sstep Ops M o) => //= st [<- _] H; exact: mset_other.
+Qed.
+Theorem hist_called_object_updated (Ms Ms' : list (mat T)) (k : nat) (o : sop) (a : sout) (M : mat T) :
+  List.nth_error Ms k = Some M -> mstep Ops Ms (k, o) = Ok (Ms', a) ->
+  exists M', sstep Ops M o = Ok (M', a) /\ List.nth_error Ms' k = Some M'.
+Proof.
+  move=> Hk; rewrite (hist_step_is_sstep _ Hk); case: (sstep Ops M o) => //= -[M' a'] [<- <-].
+  by exists M'; split=> //; apply: mset_at Hk.
+Qed.
 End AnyOps.
 
 Import GRing.Theory.
